@@ -163,6 +163,15 @@ impl super::Processor for Zip {
             for i in 0..output.len() {
                 let file = output.by_index(i)?;
 
+                // raw_copy_file() keeps only the permission bits of the Unix mode. Put the
+                // file type (directory, symlink, …) and the set-id and sticky bits back.
+                if let Some(mode) = input.by_index_raw(i)?.unix_mode() {
+                    if mode & !0o777 != 0 {
+                        overwrite.seek(SeekFrom::Start(file.central_header_start() + 38))?;
+                        overwrite.write_all(&(mode << 16).to_le_bytes())?;
+                    }
+                }
+
                 match file.last_modified().to_time() {
                     Err(e) => {
                         warn!("{}: component {}: {}",
